@@ -150,7 +150,7 @@ PROPS = {
     "C17": dict(
         title="Sale terms frozen",
         lean=["LP.Props.C17", "LP.Props.C13reachV2", "LP.Props.C14feeLp"],
-        profiles=[("timeline", ALL_VARIANTS), ("life", ALL_VARIANTS), ("deploy", ALL_VARIANTS)],
+        profiles=[("timeline", ALL_VARIANTS), ("life", ALL_VARIANTS), ("deploy", ALL_VARIANTS), ("vest", ["guarV1", "guarV2"])],
         R={"st": ({"deploy", "setTicketPrice", "setPerTicket", "setNftCost", "setSchedule1", "setSchedule2"}, None)},
         D={"price": ANY, "per": ANY, "cost": ANY, "sched": ANY, "views.C17": ANY},
     ),
